@@ -875,7 +875,16 @@ archive_read_data(struct archive *_a, void *buff, size_t s)
 			r = archive_read_data_block(a, &read_buf,
 			    &a->read_data_remaining, &a->read_data_offset);
 			a->read_data_block = read_buf;
-			if (r == ARCHIVE_EOF)
+			/*
+			 * Format readers report the offset at which the
+			 * entry ends together with ARCHIVE_EOF.  If that
+			 * is beyond what has been delivered so far, the
+			 * entry ends with a hole: fall through and fill
+			 * it like any other hole, so that the result does
+			 * not depend on the caller's buffer sizes.
+			 */
+			if (r == ARCHIVE_EOF && a->read_data_offset <=
+			    a->read_data_output_offset)
 				return (bytes_read);
 			/*
 			 * Error codes are all negative, so the status
